@@ -359,4 +359,253 @@ Proof.
   - destruct f; cbn; auto.
 Qed.
 
+(* ---- the best-effort loop ------------------------------------------------------------------------------------------ *)
+Notation ploop := (parse_loop valid_pk).
+Notation tparse := (try_parse valid_pk).
+
+(* the result does not depend on the fuel once it exceeds the length of the input *)
+Lemma parse_loop_fuel f1 : forall s f2, (length s < f1)%nat -> (length s < f2)%nat -> ploop f1 s = ploop f2 s.
+Proof.
+  induction f1 as [|f1 IH]; intros s f2 H1 H2; [lia|].
+  destruct s as [|b s]; [destruct f2; reflexivity|]. destruct f2 as [|f2]; [lia|]. cbn [parse_loop].
+  destruct (sf_good_progress (b :: s)) as [_ Hl]. specialize (Hl ltac:(discriminate)).
+  destruct (dec_sf (b :: s)) as [[x|e|] r]; cbn [snd length] in Hl.
+  - rewrite (IH r f2) by (cbn [length] in *; lia). reflexivity.
+  - rewrite (IH r f2) by (cbn [length] in *; lia). reflexivity.
+  - reflexivity.
+Qed.
+
+Lemma try_parse_nil : tparse [] = Ok (true, []).
+Proof. reflexivity. Qed.
+
+Lemma try_parse_step s : s <> [] ->
+  tparse s = match dec_sf s with
+             | (Ok x, r) => match tparse r with Ok (ok, l) => Ok (ok, x :: l) | other => other end
+             | (Err _, r) => match tparse r with Ok (_, l) => Ok (false, l) | other => other end
+             | (Panic, _) => Panic
+             end.
+Proof.
+  intros Hs. unfold try_parse. destruct s as [|b s]; [congruence|]. cbn [parse_loop].
+  destruct (sf_good_progress (b :: s)) as [_ Hl]. specialize (Hl ltac:(discriminate)).
+  destruct (dec_sf (b :: s)) as [[x|e|] r]; cbn [snd] in Hl; try reflexivity;
+    rewrite (parse_loop_fuel (length (b :: s)) r (S (length r))) by lia; reflexivity.
+Qed.
+
+(* totality: the fuel S (length raw) is never exhausted and the loop never panics *)
+Lemma parse_loop_total fuel : forall s, (length s < fuel)%nat -> exists ok fs, ploop fuel s = Ok (ok, fs).
+Proof.
+  induction fuel as [|fuel IH]; intros s Hs; [lia|].
+  destruct s as [|b s]; [cbn; eauto|]. cbn [parse_loop].
+  destruct (sf_good_progress (b :: s)) as [Hp Hl]. specialize (Hl ltac:(discriminate)).
+  destruct (dec_sf (b :: s)) as [[x|e|] r]; cbn [fst snd] in Hp, Hl.
+  - destruct (IH r) as (ok & fs & ->); [cbn [length] in *; lia|]. eauto.
+  - destruct (IH r) as (ok & fs & ->); [cbn [length] in *; lia|]. eauto.
+  - congruence.
+Qed.
+
+Lemma try_parse_total raw : exists ok fs, tparse raw = Ok (ok, fs).
+Proof. unfold try_parse. apply parse_loop_total. lia. Qed.
+
+(* every returned sub-field is well-formed, whatever the input *)
+Lemma parse_loop_wf fuel : forall s ok fs, ploop fuel s = Ok (ok, fs) -> Forall wf_subfield fs.
+Proof.
+  induction fuel as [|fuel IH]; intros s ok fs H.
+  - destruct s; cbn in H; [inversion H; constructor|discriminate].
+  - destruct s as [|b s]; [cbn in H; inversion H; constructor|]. cbn [parse_loop] in H.
+    destruct (dec_sf (b :: s)) as [[x|e|] r] eqn:E; [| |discriminate].
+    + destruct (ploop fuel r) as [[ok' l]|e'|] eqn:E2; try discriminate. inversion H; subst.
+      constructor; [|eapply IH; eassumption]. apply dec_subfield_ok in E. destruct E as (c & _ & _ & Hw & _). exact Hw.
+    + destruct (ploop fuel r) as [[ok' l]|e'|] eqn:E2; try discriminate. inversion H; subst. eapply IH; eassumption.
+Qed.
+
+(* "no resynchronisation": the input is a sequence of sub-fields, each decoded where the previous one ended *)
+Inductive strict_seq : bytes -> list subfield -> Prop :=
+| ss_nil : strict_seq [] []
+| ss_cons s f r fs : s <> [] -> dec_sf s = (Ok f, r) -> strict_seq r fs -> strict_seq s (f :: fs).
+
+Lemma parse_loop_ok_strict fuel : forall s fs, ploop fuel s = Ok (true, fs) -> strict_seq s fs.
+Proof.
+  induction fuel as [|fuel IH]; intros s fs H.
+  - destruct s; cbn in H; [inversion H; constructor|discriminate].
+  - destruct s as [|b s]; [cbn in H; inversion H; constructor|]. cbn [parse_loop] in H.
+    destruct (dec_sf (b :: s)) as [[x|e|] r] eqn:E; [| |discriminate].
+    + destruct (ploop fuel r) as [[ok' l]|e'|] eqn:E2; try discriminate. inversion H; subst.
+      econstructor; [discriminate|eassumption|now apply IH].
+    + destruct (ploop fuel r) as [[ok' l]|e'|] eqn:E2; discriminate.
+Qed.
+
+Lemma strict_try_parse s fs : strict_seq s fs -> tparse s = Ok (true, fs).
+Proof.
+  induction 1 as [|s f r fs Hs Hd _ IH]; [reflexivity|].
+  rewrite try_parse_step by assumption. rewrite Hd, IH. reflexivity.
+Qed.
+
+Lemma try_parse_ok_iff s fs : tparse s = Ok (true, fs) <-> strict_seq s fs.
+Proof. split; [apply parse_loop_ok_strict|apply strict_try_parse]. Qed.
+
+(* ---- well-formed sequences round-trip ------------------------------------------------------------------------------- *)
+Lemma enc_fields_cons f t : enc_fields (f :: t) = enc_subfield f ++ enc_fields t.
+Proof. reflexivity. Qed.
+
+Lemma wf_strict fs : Forall wf_subfield fs -> pad_rule fs -> strict_seq (enc_fields fs) fs.
+Proof.
+  induction fs as [|f t IH]; intros Hw Hp; [constructor|].
+  inversion Hw as [|? ? Hf Ht]; subst. destruct Hp as [Hp1 Hp2]. rewrite enc_fields_cons.
+  apply ss_cons with (r := enc_fields t).
+  - destruct (enc_subfield_nonempty f) as (x & rest & ->). discriminate.
+  - apply dec_subfield_complete; [assumption|]. destruct f; cbn [pad_ok]; auto.
+    destruct Hp1 as [->| ->]; [now left|now right].
+  - now apply IH.
+Qed.
+
+Lemma roundtrip_fields fs : Forall wf_subfield fs -> pad_rule fs -> tparse (enc_fields fs) = Ok (true, fs).
+Proof. intros Hw Hp. apply strict_try_parse. now apply wf_strict. Qed.
+
+(* ---- ExtraField -> RawExtraField (serialize, then deserialize(..).unwrap()) --------------------------------------- *)
+Lemma wf_no_overflow fs : Forall wf_subfield fs -> existsb subfield_overflows fs = false.
+Proof.
+  induction 1 as [|f t Hf _ IH]; [reflexivity|]. cbn [existsb]. rewrite IH, orb_false_r.
+  destruct f; try reflexivity. destruct Hf as [Hd _]. cbn [subfield_overflows]. now destruct (mm_size_ok depth Hd).
+Qed.
+
+Lemma deserialize_complete {A} (d : dec A) s a : d s = (Ok a, []) -> deserialize d s = Ok a.
+Proof.
+  intros H. unfold deserialize, deserialize_partial. rewrite H. change (lenN (@nil byte)) with 0.
+  rewrite N.sub_0_r. now rewrite N.eqb_refl.
+Qed.
+
+Lemma raw_of_extra_ok fs :
+  existsb subfield_overflows fs = false -> lenN (enc_fields fs) <= MAX_VEC_MEM_ALLOC_SIZE ->
+  raw_of_extra fs = Ok (enc_fields fs).
+Proof.
+  intros Ho Hl. unfold raw_of_extra, enc_extra_chk, enc_extra. rewrite Ho.
+  rewrite (deserialize_complete dec_bytes_vec _ (enc_fields fs)); [reflexivity|].
+  rewrite <- (app_nil_r (enc_bytes_vec _)). now apply dec_bytes_vec_complete.
+Qed.
+
+(* beyond the allocation cap the conversion panics (the unwrap meets ParseFailed) *)
+Lemma raw_of_extra_panics fs :
+  MAX_VEC_MEM_ALLOC_SIZE < lenN (enc_fields fs) -> lenN (enc_fields fs) < 2 ^ 64 -> raw_of_extra fs = Panic.
+Proof.
+  intros Hl Hu. unfold raw_of_extra, enc_extra_chk. destruct (existsb subfield_overflows fs); [reflexivity|].
+  unfold enc_extra, deserialize, deserialize_partial, dec_bytes_vec, dec_vec, dec_len, enc_bytes_vec, bind.
+  rewrite dec_enc_varint by assumption. unfold over_cap.
+  destruct (N.ltb_spec MAX_VEC_MEM_ALLOC_SIZE (1 * lenN (enc_fields fs))); [reflexivity|lia].
+Qed.
+
+Lemma roundtrip_extra fs :
+  wf_extra fs -> raw_of_extra fs = Ok (enc_fields fs) /\ tparse (enc_fields fs) = Ok (true, fs).
+Proof.
+  intros (Hw & Hp & Hl). split; [apply raw_of_extra_ok; [now apply wf_no_overflow|assumption]|now apply roundtrip_fields].
+Qed.
+
+(* ---- a fully parsable input determines its sub-fields' re-encoding, up to merge-mining size bytes ----------------- *)
+Lemma eq_upto_len f c : eq_upto_mm_size f c -> length c = length (enc_subfield f).
+Proof.
+  destruct f; cbn [eq_upto_mm_size]; try (now intros ->). intros (sz & ->). cbn [enc_subfield].
+  unfold enc_u8. cbn [app length]. reflexivity.
+Qed.
+
+Lemma strict_seq_nil fs : strict_seq [] fs -> fs = [].
+Proof. inversion 1; [reflexivity|congruence]. Qed.
+
+Lemma strict_inv s fs : strict_seq s fs ->
+  exists cs, s = concat cs /\ Forall2 eq_upto_mm_size fs cs /\ Forall wf_subfield fs /\ pad_rule fs.
+Proof.
+  induction 1 as [|s f r fs Hs Hd Hss IH].
+  - exists []. repeat split; constructor.
+  - destruct IH as (cs & -> & H2 & Hw & Hp). apply dec_subfield_ok in Hd.
+    destruct Hd as (c & -> & He & Hwf & Hpo). exists (c :: cs). cbn [concat]. repeat split.
+    + now constructor.
+    + now constructor.
+    + destruct f; cbn [pad_ok] in Hpo; auto. destruct Hpo as [->|Hr]; [now left|right].
+      rewrite Hr in Hss. now apply strict_seq_nil in Hss.
+    + assumption.
+Qed.
+
+Lemma concat_len_fields fs : forall cs, Forall2 eq_upto_mm_size fs cs -> length (concat cs) = length (enc_fields fs).
+Proof.
+  induction 1 as [|f c fs cs He _ IH]; [reflexivity|].
+  rewrite enc_fields_cons. cbn [concat]. rewrite !app_length, IH. f_equal. now apply eq_upto_len.
+Qed.
+
+Lemma ok_idempotent e fs :
+  tparse e = Ok (true, fs) ->
+  tparse (enc_fields fs) = Ok (true, fs) /\ length (enc_fields fs) = length e.
+Proof.
+  intros H. apply try_parse_ok_iff in H. apply strict_inv in H. destruct H as (cs & -> & H2 & Hw & Hp).
+  split; [now apply roundtrip_fields|]. symmetry. now apply concat_len_fields.
+Qed.
+
+(* for inputs without merge-mining tags the bytes themselves are reproduced *)
+Definition no_mm (f : subfield) : Prop := match f with MergeMining _ _ => False | _ => True end.
+Lemma ok_bytes_equal e fs : tparse e = Ok (true, fs) -> Forall no_mm fs -> enc_fields fs = e.
+Proof.
+  intros H Hn. apply try_parse_ok_iff in H. apply strict_inv in H. destruct H as (cs & -> & H2 & _ & _).
+  induction H2 as [|f c fs cs He _ IH]; [reflexivity|]. inversion Hn; subst. rewrite enc_fields_cons. cbn [concat].
+  rewrite IH by assumption. f_equal. destruct f; cbn [eq_upto_mm_size no_mm] in *; try (now symmetry); tauto.
+Qed.
+
+(* ---- accessors return the first match --------------------------------------------------------------------------------- *)
+Lemma tx_pubkey_first pre k post :
+  Forall (fun f => forall k', f <> TxPublicKey k') pre -> tx_pubkey (pre ++ TxPublicKey k :: post) = Some k.
+Proof.
+  induction 1 as [|f t Hf _ IH]; [reflexivity|]. cbn [app tx_pubkey]. destruct f; try assumption.
+  exfalso. now apply (Hf key).
+Qed.
+Lemma tx_pubkey_none fs : tx_pubkey fs = None <-> Forall (fun f => forall k', f <> TxPublicKey k') fs.
+Proof.
+  induction fs as [|f t IH]; [split; [constructor|reflexivity]|]. split.
+  - intros H. destruct f; cbn [tx_pubkey] in H; try discriminate; (constructor; [discriminate|now apply IH]).
+  - intros H. inversion H as [|? ? Hf Ht]; subst. destruct f; cbn [tx_pubkey]; try (now apply IH).
+    exfalso. now apply (Hf key).
+Qed.
+Lemma tx_additional_first pre ks post :
+  Forall (fun f => forall k', f <> AdditionalPublicKey k') pre ->
+  tx_additional_pubkeys (pre ++ AdditionalPublicKey ks :: post) = Some ks.
+Proof.
+  induction 1 as [|f t Hf _ IH]; [reflexivity|]. cbn [app tx_additional_pubkeys]. destruct f; try assumption.
+  exfalso. now apply (Hf keys).
+Qed.
+Lemma tx_additional_none fs :
+  tx_additional_pubkeys fs = None <-> Forall (fun f => forall k', f <> AdditionalPublicKey k') fs.
+Proof.
+  induction fs as [|f t IH]; [split; [constructor|reflexivity]|]. split.
+  - intros H. destruct f; cbn [tx_additional_pubkeys] in H; try discriminate; (constructor; [discriminate|now apply IH]).
+  - intros H. inversion H as [|? ? Hf Ht]; subst. destruct f; cbn [tx_additional_pubkeys]; try (now apply IH).
+    exfalso. now apply (Hf keys).
+Qed.
+
 End Extra.
+
+(* ---- consequences stated for the closed section ---------------------------------------------------------------------- *)
+Lemma try_parse_partial valid_pk e fs :
+  try_parse valid_pk e = Ok (false, fs) -> forall fs', ~ strict_seq valid_pk e fs'.
+Proof. intros H fs' Hs. apply strict_try_parse in Hs. congruence. Qed.
+
+Lemma enc_subfield_chk_ok valid_pk f : wf_subfield valid_pk f -> enc_subfield_chk f = Ok (enc_subfield f).
+Proof.
+  intros Hw. unfold enc_subfield_chk. destruct f; try reflexivity. destruct Hw as [Hd _].
+  cbn [subfield_overflows]. now destruct (mm_size_ok depth Hd) as (-> & _).
+Qed.
+
+(* a sequence of well-formed sub-fields obeying the padding rule whose conversion to RawExtraField panics:
+   131073 paddings of 255 bytes serialise to 256 * 131073 = 32 MiB + 256 bytes *)
+Definition big_extra : list subfield := repeat (Padding 255) (N.to_nat 131073).
+
+Lemma enc_fields_repeat_pad k : lenN (enc_fields (repeat (Padding 255) k)) = 256 * N.of_nat k.
+Proof.
+  induction k as [|k IH]; [reflexivity|]. cbn [repeat]. rewrite enc_fields_cons. unfold lenN in *.
+  rewrite app_length. change (length (enc_subfield (Padding 255))) with 256%nat. lia.
+Qed.
+
+Lemma big_extra_panics valid_pk :
+  Forall (wf_subfield valid_pk) big_extra /\ pad_rule big_extra /\ raw_of_extra big_extra = Panic.
+Proof.
+  unfold big_extra. split; [|split].
+  - apply Forall_forall. intros f Hf. apply repeat_spec in Hf. subst. cbn. lia.
+  - generalize (N.to_nat 131073). induction n as [|n IH]; cbn [repeat pad_rule]; auto.
+  - apply raw_of_extra_panics; rewrite enc_fields_repeat_pad, N2Nat.id; unfold MAX_VEC_MEM_ALLOC_SIZE.
+    + lia.
+    + change (2 ^ 64) with 18446744073709551616. lia.
+Qed.
